@@ -296,6 +296,20 @@ struct SmallImpl {
   }
 };
 
+// A handler that, while it is running, has the same interface method dispatched once more on this thread (its own
+// connection, bindings and handler): what a proxy tier does when it forwards a miss upstream. The outer handler's
+// arguments must be untouched by it.
+void RunInnerConcat() {
+  Ctx c2;
+  Loop* L2 = &c2.loop;
+  auto receiver = nop::MakeSimpleMethodReceiver(&c2.pser, &c2.pdes);
+  auto inner = nop::BindInterface(
+      Calc::Concat::Bind([](const std::string& a, const std::string& b) { return a + "|" + b; }));
+  L2->dispatch = [&]() { return inner(&receiver); };
+  auto sender = nop::MakeSimpleMethodSender(&c2.ser, &c2.des);
+  (void)Calc::Concat::Invoke(&sender, std::string("inner-first-argument-of-some-length"), std::string("inner-second"));
+}
+
 void RunCalls(const std::string& iface, const Json& calls, JsonOut& o) {
   Ctx c;
   Loop* L = &c.loop;
@@ -304,7 +318,9 @@ void RunCalls(const std::string& iface, const Json& calls, JsonOut& o) {
   // bindings: functions / lambdas for Calc (Unbound is not bound), methods with passthrough for Small (Other is not bound)
   auto calc = nop::BindInterface(
       Calc::Sum::Bind([L](std::int32_t a, std::int32_t b) { std::int32_t r = static_cast<std::int32_t>(static_cast<std::uint32_t>(a) + static_cast<std::uint32_t>(b)); L->hlog.push_back({"Sum", JArgs(a, b), J(r)}); return r; }),
-      Calc::Concat::Bind([L](const std::string& a, const std::string& b) { std::string r = a + b; L->hlog.push_back({"Concat", JArgs(a, b), J(r)}); return r; }),
+      Calc::Concat::Bind([L](const std::string& a, const std::string& b) {
+        if (a.size() >= 5 && a.compare(0, 5, "nest:") == 0) RunInnerConcat();     // re-entrant dispatch of the same method
+        std::string r = a + b; L->hlog.push_back({"Concat", JArgs(a, b), J(r)}); return r; }),
       Calc::Echo::Bind([L](const std::vector<std::uint8_t>& v) { std::vector<std::uint8_t> r(v.rbegin(), v.rend()); L->hlog.push_back({"Echo", JArgs(v), J(r)}); return r; }),
       Calc::Stats::Bind([L](const Point& p, nop::Optional<std::int32_t> opt) { Point r{p.x + (opt ? 1 : 0), p.s + "!"}; L->hlog.push_back({"Stats", JArgs(p, opt), J(r)}); return r; }),
       Calc::Choose::Bind([L](const IntOrStr& v) { IntOrStr r; if (v.is<std::int32_t>()) r = std::string("int"); else if (v.is<std::string>()) r = std::int32_t{7}; L->hlog.push_back({"Choose", JArgs(v), J(r)}); return r; }),
